@@ -806,6 +806,15 @@ def run_one(case, scal, dry=False):
             res['success'] = bool(p.driver.result.success) and not p.driver.fail
             res['message'] = str(getattr(cap.res, 'message', ''))[:80]
             xd = np.asarray(cap.res.x, dtype=float)
+            if not np.all(np.isfinite(xd)) or not all(
+                    np.all(np.isfinite(np.asarray(p.get_val(n_)))) for n_ in
+                    [dv['name'] for dv in case['dvs']] + [o['name'] for o in case['outs']]):
+                # the optimizer wandered off to nan/inf: certainly not a success report we can judge
+                res['error'] = 'NonFinite'
+                res['msg'] = 'non-finite design or outputs after the run (success=%s)' % res['success']
+                res['called'] = True
+                res['nonfinite_success'] = bool(res.pop('success'))
+                return res
             res['xd'] = rats(xd.tolist())
             # observation through the public API, before anything else touches the model
             res['x_model'] = rats(np.concatenate(
@@ -1646,9 +1655,15 @@ class C21(Property):
             return 'records of the implementation could not be evaluated: %s' % r['records_error']
         probes = self.probes_exact(case, sc, r)
         views = [exact_driver_view(case, sc, q) for q in probes]
+        # a diverged optimizer leaves result.x at ~1e15: floating-point evaluation of the model is
+        # meaningless there (differences of huge numbers), the other probes remain
+        self._skip = {pi for pi, q in enumerate(probes)
+                      if max(abs(t) for t in unscale_x(case, sc, q)) > 1000}
         grad_opt = case['opt'] != 'COBYLA'
         # objective value / gradient as the optimizer sees them
         for pi, w in enumerate(views):
+            if pi in self._skip:
+                continue
             if not rel_close(unrat(r['fobj'][pi]), w['f'], w['fmag']):
                 return 'objective at probe %d: implementation %s, exact %s' % (
                     pi, float(unrat(r['fobj'][pi])), float(w['f']))
@@ -1725,6 +1740,8 @@ class C21(Property):
         j = q['idx']
         bmag = self._bound_mag
         for pi, w in enumerate(views):
+            if pi in self._skip:
+                continue
             cv = w['cons'][ci]
             mv = unrat(q['v'][pi])
             zv = unrat(z['v'][pi])
